@@ -4,9 +4,10 @@
 (* statement by statement, with an inductive invariant that Apalache       *)
 (* discharges symbolically (no bound on n or m):                           *)
 (*                                                                         *)
-(*   apalache-mc check --init=IndInit --inv=IndInv --length=1 (step)       *)
-(*   apalache-mc check --init=Init    --inv=IndInv --length=0 (base)       *)
-(*   apalache-mc check --init=IndInit --inv=Safe   --length=0 (IndInv => Safe) *)
+(*   apalache-mc check --cinit=CInit --init=Init    --inv=IndInv --length=0   (base)           *)
+(*   apalache-mc check --cinit=CInit --init=IndInit --inv=IndInv --length=1   (step)           *)
+(*   apalache-mc check --cinit=CInit --init=IndInit --inv=Safe   --length=0   (IndInv => Safe) *)
+(*   apalache-mc check --cinit=CInitMut --init=Init --inv=Safe --length=4     (must FAIL)      *)
 (*                                                                         *)
 (* The code (execute.go):                                                  *)
 (*   nbTasks := m;  per := n / nbTasks                                     *)
@@ -27,6 +28,12 @@
 (* tasks <= min(n, m).                                                     *)
 (***************************************************************************)
 EXTENDS Integers
+
+CONSTANT
+  \* @type: Bool;
+  DropRemainder        \* TRUE: the mutant design that never hands out the remainder (the invariant must FAIL: self-test of the proof)
+CInit    == DropRemainder = FALSE
+CInitMut == DropRemainder = TRUE
 
 VARIABLES
   \* @type: Int;
@@ -66,7 +73,7 @@ Init ==
 Iter ==
   /\ ~done /\ i < tasks
   /\ LET start == i * per + off
-         bump  == IF extra > 0 THEN 1 ELSE 0
+         bump  == IF extra > 0 /\ ~DropRemainder THEN 1 ELSE 0
          end   == start + per + bump
      IN  /\ contig' = (contig /\ start = lastEnd /\ start < end /\ 0 <= start /\ end <= n)
          /\ lastEnd' = end
